@@ -144,7 +144,7 @@ class MayRaise:
                     if k not in work:
                         work.append(k)
                 redo.clear()
-                if new != self.summ[key]:
+                if new != self.summ.get(key):
                     self.summ[key] = new
                     for caller, callees in self.edges.items():
                         if key in callees and caller not in work:
@@ -767,7 +767,17 @@ class MayRaise:
                 out |= self.expr_escapes(t, ctx)
             return out
         if isinstance(s, ast.Assert):
-            return self.expr_escapes(s.test, ctx)
+            out |= self.expr_escapes(s.test, ctx)
+            # the statement raises AssertionError whenever the test is false (the package is not run with -O by its users' choice):
+            # safe only where the very test is already established on every path that reaches it
+            from .srcmodel import dominating_literals
+            lits = dominating_literals(fi.node, s) if not isinstance(fi.node, ast.Lambda) else []
+            established = norm(s.test) in lits or (isinstance(s.test, ast.Constant) and bool(s.test.value))
+            esc = self.site(ctx, s, "assert", "AssertionError", established, "the asserted condition is established by an enclosing test" if established else
+                            f"nothing on the way here establishes `{norm(s.test)[:50]}`")
+            if esc:
+                out.add(esc)
+            return out
         raise AnalysisError(f"may-raise: unsupported statement {type(s).__name__} at {fi.qualname}:{s.lineno}")
 
     # ------------------------------------------------------------------ expressions
